@@ -212,14 +212,15 @@ func AddStandardFilters(fd FilterDictionary) { //nolint: gocyclo
 		if start < 0 {
 			start = len(ss) + start
 		}
-		if start < 0 {
+		// a start outside the string or a negative length selects nothing
+		if start < 0 || start > len(ss) || n < 0 {
 			return ""
 		}
-		end := start + n
-		if end > len(ss) {
-			end = len(ss)
+		// clamp the length to what is left (also keeps start+n from overflowing)
+		if n > len(ss)-start {
+			n = len(ss) - start
 		}
-		return string(ss[start:end])
+		return string(ss[start : start+n])
 	})
 	fd.AddFilter("split", splitFilter)
 	fd.AddFilter("strip_html", func(s string) string {
